@@ -217,6 +217,11 @@ class LoopFn:
                 return k(("var", nm, qual(n)))
             raise Unsupported("member access on %s" % base.get("kind"))
         if kd == "UnaryOperator" and n.get("opcode") == "*":
+            y = inn[0]
+            while y.get("kind") in SKIP or y.get("kind") in CASTS:
+                y = self.inner(y)[0]
+            if y.get("kind") == "CallExpr" and self.callee_name(self.inner(y)[0]) == "__errno_location" and "errno_" in self.vars:
+                return k(("var", "errno_", qual(n)))          # errno: a ghost variable set by the oracle of the failing call
             return self.E(inn[0], lambda p: k(("mem", p, qual(n))))
         if kd == "UnaryOperator" and n.get("opcode") in ("++", "--") and not n.get("isPostfix"):
             return self.incdec(n, lambda v, lv: k(lv))
@@ -415,6 +420,46 @@ class LoopFn:
             if isinstance(spec, dict) and spec.get("event"):          # a ghost event, receiver and arguments not evaluated
                 g = spec.get("to", "evs")
                 return "(let %s := %s ++ [%s] in %s)" % (g, g, spec["event"], k("0"))
+            if isinstance(spec, dict) and spec.get("pop"):            # the next value of an oracle stream (a ghost list)
+                g, r = spec["pop"], self.tmp("o")
+                return "(match %s with nil => Oob | cons %s %s => %s end)" % (g, r, g, k(r))
+            if isinstance(spec, dict) and spec.get("wait"):
+                # waitpid(pid, &status, options): the next (result, status, errno) of the oracle stream; status and errno are assigned
+                w = spec["wait"]
+                r = self.tmp("o")
+                return "(match %s with nil => Oob | cons (%s, st_, er_) %s => let %s := st_ in let %s := er_ in %s end)" % (
+                    w["stream"], r, w["stream"], w["status"], w["errno"], k(r))
+            if isinstance(spec, dict) and spec.get("add_failure"):
+                # result->addFailure(TestFailure(shell, "text")): the ghost event ("addFailure:text", [])
+                lits = []
+
+                def find(x):
+                    if x.get("kind") == "StringLiteral":
+                        lits.append(json.loads(x["value"]) if x["value"].startswith('"') else x["value"])
+                    for c in self.inner(x):
+                        find(c)
+                find(args[0])
+                g = spec.get("to", "evs")
+                label = "addFailure:" + (lits[0] if lits else "?")
+                return "(let %s := %s ++ [(%s, nil)] in %s)" % (g, g, cxx2coq.coq_string(label), k("0"))
+            if isinstance(spec, dict) and (spec.get("event_args") or spec.get("abort_args")):
+                nm = spec.get("event_args") or spec.get("abort_args")
+                g = spec.get("to", "evs")
+
+                def ev2(i, acc):
+                    if i == len(args):
+                        body = self.ret("tt" if self.cur_void else "0") if spec.get("abort_args") else k("0")
+                        return "(let %s := %s ++ [(%s, [%s])] in %s)" % (g, g, cxx2coq.coq_string(nm), "; ".join(acc), body)
+                    return self.E(args[i], lambda v: ev2(i + 1, acc + [v]))
+                return ev2(0, [])
+            if isinstance(spec, dict) and spec.get("trace_fn"):
+                g = spec.get("to", "evs")
+
+                def ev3(i, acc):
+                    if i == len(args):
+                        return "(let %s := %s ++ (%s) in %s)" % (g, g, spec["trace_fn"].format(*acc), k("0"))
+                    return self.E(args[i], lambda v: ev3(i + 1, acc + [v]))
+                return ev3(0, [])
             if isinstance(spec, dict) and spec.get("fail_ctor"):
                 # failWith(SomeFailure(this, file, line, ...), terminator): the ghost event AFail "SomeFailure" file line; the test is left
                 c = args[0]
@@ -562,6 +607,16 @@ class LoopFn:
             else:
                 flags.add("store")
         if kd == "UnaryOperator" and n.get("opcode") == "*":
+            y = inn[0]
+            while y.get("kind") in SKIP or y.get("kind") in CASTS:
+                y = self.inner(y)[0]
+            if y.get("kind") == "CallExpr" and "errno_" in self.vars:
+                try:
+                    if self.callee_name(self.inner(y)[0]) == "__errno_location":
+                        refs.add("errno_")
+                        return
+                except Unsupported:
+                    pass
             flags.add("mem")
         if kd == "ArraySubscriptExpr":
             flags.add("mem")
@@ -578,9 +633,17 @@ class LoopFn:
                 flags.add("mem")
                 assigned.add(spec["ghost"])
                 refs.add(spec["ghost"])
-            if isinstance(spec, dict) and (spec.get("event") or spec.get("fail_ctor")):
+            if isinstance(spec, dict) and (spec.get("event") or spec.get("fail_ctor") or spec.get("add_failure") or spec.get("event_args")
+                                           or spec.get("abort_args") or spec.get("trace_fn")):
                 assigned.add(spec.get("to", "evs"))
                 refs.add(spec.get("to", "evs"))
+            if isinstance(spec, dict) and spec.get("pop"):
+                assigned.add(spec["pop"])
+                refs.add(spec["pop"])
+            if isinstance(spec, dict) and spec.get("wait"):
+                for v in (spec["wait"]["stream"], spec["wait"]["status"], spec["wait"]["errno"]):
+                    assigned.add(v)
+                    refs.add(v)
             if isinstance(spec, dict) and spec.get("cstr_op"):
                 flags.add("mem")
             if isinstance(spec, dict) and spec.get("fn"):
@@ -832,6 +895,7 @@ class LoopFn:
         for g, t in self.cfg.get("ghosts", []):
             self.vars[g] = t
             self.order.append(g)
+        self.cur_void = void
         self.predeclare(node)
         refs, assigned, declared, flags = set(), set(), set(), set()
         self.scan(body, refs, assigned, declared, flags)
